@@ -751,6 +751,8 @@ pub fn run(tier_name: &str, seed: u64) -> i32 {
                 tally.bump("sched_branching_points", c.branching);
                 tally.max("max_runnable_tasks", c.max_runnable as u64);
                 tally.bump("random_draws", c.n_rng);
+                tally.bump("clock_reads", c.n_clock_reads);
+                tally.bump("fault_clock_leap_fired", c.n_clock_jumps_fired);
                 tally.bump("par_calls", c.n_par_calls);
                 tally.bump("par_calls_multiworker", c.n_par_multiworker);
                 tally.bump("find_any_races", c.n_find_any_races);
